@@ -4,6 +4,7 @@ import (
 	"fmt"
 	"math/big"
 	"regexp"
+	"runtime"
 	"sort"
 	"strings"
 	"time"
@@ -384,7 +385,8 @@ func genC12(thorough bool) func(t *rapid.T) Case {
 		c := &CaseC12{}
 		c.Integer = rapid.IntRange(0, 2).Draw(t, "decimal") < 2
 		c.Book = genBook(t, BookOpts{MaxRecipes: 6, ExactOnly: true})
-		c.Blocks = genLog(t, c.Book, LogOpts{MinDays: 2, MaxDays: 9, Window: 4, ExactOnly: c.Integer})
+		c.Blocks = genLog(t, c.Book, LogOpts{MinDays: 2, MaxDays: 9, Window: 4, ExactOnly: c.Integer,
+			LongDays: rapid.IntRange(0, 5).Draw(t, "long_days") == 5, Pad: rapid.IntRange(0, 7).Draw(t, "pad") == 7})
 		if c.Integer {
 			toInt := func(bs []Block) {
 				for i := range bs {
@@ -561,10 +563,33 @@ func (c *CaseC12) Eval(ob *Obs) []Finding {
 	for i := 0; i+1 < len(cuts); i++ {
 		parts = append(parts, run(c.Blocks[cuts[i]:cuts[i+1]]))
 	}
-	for _, r := range append([]*Result{whole}, parts...) {
+	partFailed := false
+	for _, r := range parts {
 		if r.Failed {
-			return nil // an order-dependent failure (C05/C11) or a crash (C08) is not this property's business
+			partFailed = true
 		}
+	}
+	if whole.Failed || partFailed {
+		// Judge failures run by run, each from a process whose pools are empty, so that one run's
+		// leftovers cannot make the next one fail (or succeed).
+		scrub := func() { runtime.GC(); runtime.GC() }
+		scrub()
+		whole = run(c.Blocks)
+		partFailed = false
+		for i := 0; i+1 < len(cuts); i++ {
+			scrub()
+			parts[i] = run(c.Blocks[cuts[i]:cuts[i+1]])
+			partFailed = partFailed || parts[i].Failed
+		}
+	}
+	if whole.Failed && !partFailed {
+		// every part is reported without complaint, but their concatenation is not: the report of the
+		// history is not composed of the reports of its parts
+		return []Finding{{"C12 whole-fails-although-every-part-succeeds cmd=" + c.Shape,
+			fmt.Sprintf("history of %d day blocks cut at %v: each part is reported, the whole log fails with %q %s", len(c.Blocks), c.Cuts, whole.Err, short(whole.Panic, 150))}}
+	}
+	if whole.Failed || partFailed {
+		return nil // a failure that the parts share (bad input, C08/C09/C11 territory) is not this property's business
 	}
 	dates := map[string]int{}
 	for _, b := range c.Blocks {
